@@ -169,7 +169,10 @@ def mutable_ids(root, eng):
             stack.extend(v)
             continue
         if isinstance(v, BaseException):
-            continue       # errors are shared as immutables (exceptions.py); not in the property's list
+            # the error object itself is shared on purpose (exceptions.py: immutables), but blocks, fields, lists, sets or
+            # dicts that hang off it are ordinary mutable state of the library
+            stack.extend(v.__dict__.values())
+            continue
         if id(v) in seen:
             continue
         if isinstance(v, list):
@@ -322,7 +325,7 @@ def main():
     chk.bounds = {"input libraries": "parse of '@string{s={v}} @a{K1, author={A and BN}, month=1, t=s} (N symbolic: a valid or an invalid name) @a{K2, T=x, t=y} @b{d, t=1, t=2}' + 2 symbolic characters, K1/K2 symbolic over {a,b}; as split, after the default stack, and after name separation + splitting (list / NameParts values)",
                   "middlewares": NAMES, "stacks": "every single middleware on every prepared input; " + ("all ordered pairs" if chk.tier == "thorough" else "selected pairs") + " on the default-stack input",
                   "allow_inplace_modification": "symbolic boolean"}
-    chk.assumptions = ["exception objects stored in failed blocks are shared on purpose (immutables, exceptions.py) and excluded from the aliasing walk",
+    chk.assumptions = ["exception objects stored in failed blocks are shared on purpose (immutables, exceptions.py); the walk does not count the error object itself but does follow its attributes",
                        "LaTeX middlewares run with a stub converter; user-defined middleware is outside the claim",
                        "worlds in which a middleware raises on unsuitable input (e.g. SplitNameParts on a plain string) are not judged"]
     chk.stubs = ["pylatexenc converter -> '<' + s + '>'"]
@@ -335,9 +338,17 @@ def main():
                 chk.add_task(f"write-{pn}-{how}", task_write, prep=prep, how=how)
     pairs = list(itertools.permutations(NAMES, 2)) if chk.tier == "thorough" else [
         ("remove", "addq"), ("separate", "splitnames"), ("splitnames", "mergeparts"), ("monthint", "monthlong"), ("normkeys", "sortalpha"),
-        ("sortblocks", "remove"), ("remove", "sortblocks"), ("latexenc", "latexdec"), ("resolve", "sortcustom"), ("add{", "sortblocks2")]
+        ("sortblocks", "remove"), ("remove", "sortblocks"), ("latexenc", "latexdec"), ("resolve", "sortcustom"), ("add{", "sortblocks2"),
+        ("mergeparts", "splitnames"), ("mergeco", "separate")]
     for a, b in pairs:
-        chk.add_task(f"pair-{a}-{b}", task, prep=PREPS["default"] if a not in ("splitnames", "mergeparts") else PREPS["names"][:3], stack=(a, b))
+        prep = PREPS["default"]
+        if a == "splitnames":
+            prep = PREPS["separated"]
+        elif a in ("mergeparts",):
+            prep = PREPS["names"]
+        elif a == "mergeco":
+            prep = PREPS["separated"]
+        chk.add_task(f"pair-{a}-{b}", task, prep=prep, stack=(a, b))
     chk.run()
 
 
